@@ -113,6 +113,7 @@ type world struct {
 	events     []*event
 	notes      []string
 	startErr   error
+	sess       *webSessionFactory
 	digA, digB string
 	cfgIx      int
 }
@@ -282,6 +283,8 @@ func rootBodyWith(sc *scenario, class func(i int, ops []cop) string) func() {
 				}
 			case "remote-stall":
 				hw.Stall = true
+			case "remote-ok-custom":
+				// the harness installed its own master
 			}
 		}
 		xw := vexec.GetWorld()
@@ -349,6 +352,9 @@ func (w *world) doOp(o cop) string {
 	st := w.iface
 	switch o.Kind {
 	case "auth":
+		if r, ok := w.viaFrontend(o); ok {
+			return r
+		}
 		switch o.Via {
 		case "sasl":
 			ok, _, err := callback(o.User, o.Pw, "svc", "realm", "/sock", st)
